@@ -232,7 +232,11 @@ class Gen:
             return self.simple_stmt(scope)
         if m < 11 and depth < self.max_depth:
             self.hit("if")
-            out = ["if", "("] + self.cond(scope) + [")"] + self.body_or_bare(scope, depth + 1, in_loop)
+            # a condition of a template may read signals (the analysis treats a signal like any other variable)
+            sig_cond = self.kind == "template" and r.chance(1, 3)
+            if sig_cond:
+                self.hit("if-on-signal")
+            out = ["if", "("] + self.cond(scope, sig_cond) + [")"] + self.body_or_bare(scope, depth + 1, in_loop)
             if r.chance(1, 2):
                 self.hit("else")
                 out += ["else"] + self.body_or_bare(scope, depth + 1, in_loop)
@@ -274,6 +278,20 @@ class Gen:
                     self.hit("sig " + rop)
                     return rhs + [rop, s, ";"]
                 return [s, op] + rhs + [";"]
+        if m == 19:
+            # one signal assigned on both sides of a branch (one run executes one of them), then compared
+            tgt = root.signals_mid + root.signals_out
+            if tgt and depth < self.max_depth:
+                s = r.choice(tgt)
+                op = r.choice(["<--", "<=="])
+                self.hit("sig-branch")
+                lit = self.literal()
+                a = lit if r.chance(2, 3) else self.expr(scope, 1, True, ARITH)
+                b = self.expr(scope, 1, True, ARITH) if r.chance(2, 3) else self.literal()
+                if r.chance(1, 2):
+                    a, b = b, a
+                return (["if", "("] + self.cond(scope) + [")", "{", s, op] + a + [";", "}", "else", "{", s, op] + b + [";", "}"] +
+                        ["if", "(", s, "=="] + lit + [")"] + self.body_or_bare(scope, depth + 1, in_loop))
         if m == 16:
             self.hit("constraint")
             return self.expr(scope, 1, True, ARITH) + ["==="] + self.expr(scope, 1, True, ARITH) + [";"]
